@@ -182,33 +182,60 @@ def r1_1(ctx, rc):
         rc.ok({'names': sorted(ops)}, key=key)
     # recording call and replaying call pass the record's own name and args
     execq = ex + '.exec'
+    E0 = ctx.E.func(execq)
+    # exec itself, and executor methods that hand their own parameters on to
+    # it (``exec_and_capture(name, args, created_files)``): callee ->
+    # (name param, args param, overlay param)
+    execlike = {execq: tuple(E0.params[:3])}
+    for g in prog.funcs.values():
+        if g.cls != ex or g.qualname == execq:
+            continue
+        for c in prog.calls_in(g):
+            if any(isinstance(h, Func) and h.qualname == execq
+                   for h in prog.resolve_call(c, g)):
+                b0 = prog.bind_args(c, E0)
+                ps = []
+                for p in E0.params[:3]:
+                    a0 = b0.get(p)
+                    ps.append(a0.id if isinstance(a0, ast.Name) and
+                              a0.id in g.params else None)
+                if ps[0] and ps[1]:
+                    execlike[g.qualname] = tuple(ps)
     n = 0
     for f in prog.funcs.values():
         if f.cls != R.builder:
             continue
         for call in prog.calls_in(f):
             for g in prog.resolve_call(call, f):
-                if not (isinstance(g, Func) and g.qualname == execq):
+                if not (isinstance(g, Func) and g.qualname in execlike):
                     continue
                 n += 1
                 cn = ctx.H.node_of(f, call)[0]
-                a = [ctx.H.subst(x, f, cn) for x in call.args]
+                b1 = prog.bind_args(call, g)
+                pn, pa, po = execlike[g.qualname]
+                raw = [b1.get(pn), b1.get(pa),
+                       b1.get(po) if po else None]
+                a = [ctx.H.subst_callers(x, f, cn)
+                     if isinstance(x, ast.AST) else None for x in raw[:2]]
                 key = 'exec call in ' + f.qualname
-                ok = len(a) == 3 and isinstance(a[0], ast.Attribute) and \
+                ok = all(x is not None for x in a) and isinstance(
+                    a[0], ast.Attribute) and \
                     a[0].attr == 'name' and isinstance(
                         a[1], ast.Attribute) and a[1].attr == 'args' and \
                     ast.dump(a[0].value) == ast.dump(a[1].value)
+                ov = raw[2]
+                if ov is None and po is not None:
+                    ov = g.defaults.get(po)     # parameter left at default
                 if ok:
-                    ov = call.args[2]
-                    is_rec = isinstance(ov, ast.Constant) and \
-                        ov.value is None
+                    is_rec = ov is None or (isinstance(ov, ast.Constant) and
+                                            ov.value is None)
                     is_rep = isinstance(ov, ast.Name) and \
                         'CreatedFiles' in prog.param_types.get(
                             (f.qualname, ov.id), ())
                     ok = is_rec or is_rep
                 if ok:
-                    rc.ok({'site': f.qualname,
-                           'overlay': ast.unparse(call.args[2])}, key=key)
+                    rc.ok({'site': f.qualname, 'overlay': ast.unparse(ov)
+                           if isinstance(ov, ast.AST) else 'None'}, key=key)
                 else:
                     rc.violation(
                         'exec-args | ' + f.qualname,
@@ -353,7 +380,7 @@ def r1_3(ctx, rc):
     prog = ctx.prog
     G = guards(ctx)
     rr = G.replay
-    sg = ctx.E.super(rr, lambda g: False)
+    sg = ctx.E.super(rr, lambda g: g in G.dispatchers and g is not rr)
     # every concrete record class has a branch with a decider, and a
     # decider's False is propagated
     kinds = set(G.nested.values())
@@ -368,7 +395,7 @@ def r1_3(ctx, rc):
         conds = [x for x in sg.nodes if x.kind == 'out' and
                  x.cn.kind == 'cond' and isinstance(x.cn.atom, ast.Call) and
                  any(isinstance(g, Func) and g.qualname == d.qualname
-                     for g in prog.resolve_call(x.cn.atom, rr))]
+                     for g in prog.resolve_call(x.cn.atom, x.func))]
         key = 'refusal of %s is propagated' % d.qualname
         if not conds:
             rc.violation('replay-ignores-decider | ' + d.qualname,
@@ -382,7 +409,8 @@ def r1_3(ctx, rc):
                     seen = sg.reach([dst])
                     for nid in seen:
                         x = sg.nodes[nid]
-                        if x.kind == 'exit_t' or (
+                        if (x.kind == 'exit_t' and
+                                x.frame.parent is None) or (
                                 x.kind == 'in' and x.cn.kind == 'for_next'):
                             bad = (c, seen, nid)
         if bad:
